@@ -250,28 +250,9 @@ func notFoundF(entityType string) func(id string) error {
 	return func(id string) error { return boltz.NewNotFoundError(entityType, "id", id) }
 }
 
-// staffChildStrategy / pxChildStrategy route an update issued through the parent store to the child store when
+// pxChildStrategy routes an update issued through the parent store to the child store when
 // the entity has that child's data, copying the caller's parent fields into the child entity (the idiom production
 // users of boltz follow; the repository's ChildStoreUpdateHandler + mapper is the same thing in two pieces).
-type staffChildStrategy struct{ store *StaffStore }
-
-func (s *staffChildStrategy) HandleUpdate(ctx boltz.MutateContext, entity *Person, checker boltz.FieldChecker) (bool, error) {
-	if !s.store.IsEntityPresent(ctx.Tx(), entity.Id) {
-		return false, nil
-	}
-	child, found, err := s.store.FindById(ctx.Tx(), entity.Id)
-	if err != nil {
-		return true, err
-	}
-	if !found {
-		return false, nil
-	}
-	child.Person = *entity
-	return true, s.store.Update(ctx, child, checker)
-}
-func (s *staffChildStrategy) HandleDelete(boltz.MutateContext, *Person) error { return nil }
-func (s *staffChildStrategy) GetStore() boltz.Store                           { return s.store }
-
 type pxChildStrategy struct{ store *PXStore }
 
 func (s *pxChildStrategy) HandleUpdate(ctx boltz.MutateContext, entity *Person, checker boltz.FieldChecker) (bool, error) {
@@ -361,7 +342,22 @@ func NewStores() *Stores {
 	p.GrantSymbols(st)
 	st.AddSymbol("level", ast.NodeTypeInt64)
 	st.idxBadgeNo = st.AddUniqueIndex(st.AddSymbol("badgeNo", ast.NodeTypeString))
-	p.RegisterChildStoreStrategy(&staffChildStrategy{store: st})
+	// staff uses the repository's own ChildStoreUpdateHandler (the mapper copies the caller's parent fields into
+	// the stored child entity); px uses a hand-written ChildStoreStrategy: both idioms are exercised
+	p.RegisterChildStoreStrategy(&boltz.ChildStoreUpdateHandler[*Person, *Staff]{
+		Store: st,
+		Mapper: func(ctx boltz.MutateContext, parent *Person) (*Staff, bool) {
+			if !st.IsEntityPresent(ctx.Tx(), parent.Id) {
+				return nil, false
+			}
+			child, found, err := st.FindById(ctx.Tx(), parent.Id)
+			if err != nil || !found {
+				return nil, false
+			}
+			child.Person = *parent
+			return child, true
+		},
+	})
 
 	px := s.PX
 	p.GrantSymbols(px)
